@@ -213,6 +213,7 @@ func RunEngineCtx(ctx context.Context, c *Case, st *mstore.Store, withQuery func
 	SetPool(c.O.Pool)
 	st.Reset()
 	st.Faults = c.Faults
+	st.HonorCtx = c.StoreCtx
 	var reg *prometheus.Registry
 	if CountPaths {
 		reg = prometheus.NewRegistry()
@@ -275,13 +276,36 @@ func RunEngineCtx(ctx context.Context, c *Case, st *mstore.Store, withQuery func
 	}()
 	var res *promql.Result
 	t0 := time.Now()
-	select {
-	case res = <-done:
-	case <-time.After(HangGuard):
-		out.Hang = true
-		cancel()
-		out.Res.Err = "HANG"
-		return out
+	tick := time.NewTicker(200 * time.Millisecond)
+	defer tick.Stop()
+	panicSeen := time.Time{}
+wait:
+	for {
+		select {
+		case res = <-done:
+			break wait
+		case <-tick.C:
+			// A goroutine of the query died from a panic (process death in an
+			// uninstrumented build): what Exec does afterwards is meaningless, do not
+			// sit out the whole hang guard.
+			if verifshim.PanicCount() > 0 {
+				if panicSeen.IsZero() {
+					panicSeen = time.Now()
+				} else if time.Since(panicSeen) > 3*time.Second {
+					out.Hang = true
+					out.Panics = append(out.Panics, verifshim.TakePanics()...)
+					cancel()
+					out.Res.Err = "HANG after a goroutine-top panic"
+					return out
+				}
+			}
+			if time.Since(t0) > HangGuard {
+				out.Hang = true
+				cancel()
+				out.Res.Err = "HANG"
+				return out
+			}
+		}
 	}
 	if time.Since(t0) > 5*time.Second {
 		SlowRuns++
@@ -737,6 +761,12 @@ func Features(c *Case) []string {
 		}
 	}
 	walk(expr, nil)
+	// checks may attach data-derived features to a case through its note
+	for _, tok := range strings.Fields(c.Note) {
+		if strings.HasPrefix(tok, "feat:") {
+			f[tok[5:]] = true
+		}
+	}
 	for _, d := range c.Data {
 		for _, p := range d.S {
 			v := float64(p.V)
